@@ -2,6 +2,11 @@ use crate::core::{Cfg, Meta, Rep};
 pub mod c01;
 pub mod c02;
 pub mod c03;
+pub mod c04;
+pub mod c05;
+pub mod c06;
+pub mod c07;
+pub mod c11;
 pub mod c14;
 pub mod c18;
 
@@ -10,6 +15,11 @@ pub fn meta(prop: &str) -> Option<Meta> {
         "C01" => c01::meta(),
         "C02" => c02::meta(),
         "C03" => c03::meta(),
+        "C04" => c04::meta(),
+        "C05" => c05::meta(),
+        "C06" => c06::meta(),
+        "C07" => c07::meta(),
+        "C11" => c11::meta(),
         "C14" => c14::meta(),
         "C18" => c18::meta(),
         _ => return None,
@@ -21,6 +31,11 @@ pub fn run(prop: &str, cfg: &Cfg, rep: &mut Rep) {
         "C01" => c01::run(cfg, rep),
         "C02" => c02::run(cfg, rep),
         "C03" => c03::run(cfg, rep),
+        "C04" => c04::run(cfg, rep),
+        "C05" => c05::run(cfg, rep),
+        "C06" => c06::run(cfg, rep),
+        "C07" => c07::run(cfg, rep),
+        "C11" => c11::run(cfg, rep),
         "C14" => c14::run(cfg, rep),
         "C18" => c18::run(cfg, rep),
         _ => panic!("unknown property {prop}"),
